@@ -361,3 +361,9 @@ CHECKS["C18"]["rule"] += ("; file kind `undecodable after non-ASCII text`; every
 CHECKS["C18"]["assumptions"] = CHECKS["C18"]["assumptions"] + ["the stand-in iterator offers map / any / all with rayon's short-circuit semantics; other adaptors do not compile against it (machinery exit 2, not a verdict)"]
 CHECKS["C19"]["rule"] += ("; a working directory reached through a symbolic link with and without $PWD exported (config above the real directory, a decoy "
                          "beside the link); integer-looking values for non-integer options through -C")
+
+# ---- additions of round 6
+CHECKS["C05"]["rule"] += "; implementation-level imports with argument-carrying external / forward directives followed by routines"
+CHECKS["C13"]["rule"] += "; directive expressions with unterminated literals and later quotes in the text"
+CHECKS["C15"]["rule"] += "; CLI cursor lists with equal offsets in a row and sentinels of 2^31 and above"
+CHECKS["C19"]["rule"] += "; every second invalid-setting case runs with --log-level OFF (the verdict must not depend on the verbosity)"
